@@ -1148,9 +1148,38 @@ pub fn c15_case(ctx: &mut Ctx, rng: &mut Rng) {
 
 // ---------------------------------------------------------------- C16
 
+/// Gives the seed word that opens the corpus a ~2 KB feature value (below the 4096-byte limit of the lexicon
+/// reader) and adds a bigram template that joins it with itself, so that bigram.left / bigram.right carry a
+/// feature string of more than 4096 bytes that training has seen.
+fn force_long_bigram_feature(ts: &mut TrainSet, rng: &mut Rng) -> bool {
+    let first = match ts.corpus.first().and_then(|s| s.first()) {
+        Some(t) => t.clone(),
+        None => return false,
+    };
+    if !ts.seed.iter().any(|r| *r == first) || first.1.len() < 2 {
+        return false;
+    }
+    let mut new = first.clone();
+    new.1[1] = "長".repeat(690 + rng.below(20));
+    for r in ts.seed.iter_mut().filter(|r| **r == first) {
+        *r = new.clone();
+    }
+    for t in ts.corpus.iter_mut().flatten().filter(|t| **t == first) {
+        *t = new.clone();
+    }
+    for u in ts.user.iter_mut().filter(|u| u.4 == first.1) {
+        u.4 = new.1.clone();
+    }
+    ts.bigram_t.push(("BX:%L[1],%L[1]".to_string(), "BX:%R[1],%R[1]".to_string()));
+    true
+}
+
 pub fn c16_case(ctx: &mut Ctx, rng: &mut Rng) {
     let bundled = ctx.index == 0;
-    let ts = gen_trainset(rng);
+    let mut ts = gen_trainset(rng);
+    if !bundled && rng.chance(0.06) && force_long_bigram_feature(&mut ts, rng) {
+        ctx.bucket("bigram_feature_string_longer_than_4096_bytes");
+    }
     let desc = if bundled { json!({"training_set": "bundled resources"}) } else { ts.texts() };
     let mut m = match if bundled { train_bundled().ok_or_else(|| "bundled".to_string()) } else { train(&ts) } {
         Ok(m) => m,
